@@ -163,11 +163,10 @@ theorem permRefc_inv {st : Idx Sel} (s : String) (l : List (Member × Nat)) (h :
     rw [hrc, sumBy_congr (fun p _ => term_congr (hcfg s') m p)]; exact hc.refc s' m
   · exact lab_transfer matchSel h.lab (fun p hp' => hp') hcfg rfl
 
-/-- what an operation must satisfy: CIDRs are canonical (every `ip.CIDRFrom…` constructor masks)
-and an endpoint's profile-id list has no duplicates (otherwise the real index panics — known
-finding `dup_profile_id_panics`). -/
+/-- what an operation must satisfy: CIDRs are canonical (every `ip.CIDRFrom…` constructor masks).
+(Until /repo c40ff03 a duplicate-free profile-id list was required as well.) -/
 def Op.ok : Op Sel → Prop
-  | .updateEndpoint _ _ nets _ parents => (∀ c ∈ nets, c.canon) ∧ parents.Nodup
+  | .updateEndpoint _ _ nets _ _ => ∀ c ∈ nets, c.canon
   | _ => True
 
 theorem step_inv {st : Idx Sel} (op : Op Sel) (hop : op.ok) (h : Inv matchSel st) :
@@ -176,7 +175,7 @@ theorem step_inv {st : Idx Sel} (op : Op Sel) (hop : op.ok) (h : Inv matchSel st
   | updateIPSet s sel proto port => exact updateIPSet_inv matchSel s sel proto port h
   | deleteIPSet s => exact deleteIPSet_inv matchSel s h
   | updateEndpoint id labels nets ports parents =>
-    exact updateEndpoint_inv matchSel id labels nets ports parents h hop.1 hop.2
+    exact updateEndpoint_inv matchSel id labels nets ports parents h hop
   | deleteEndpoint id => exact deleteEndpoint_inv matchSel id h
   | updateParentLabels pid labels => exact updateParentLabels_inv matchSel pid labels h
   | deleteParentLabels pid => exact deleteParentLabels_inv matchSel pid h
@@ -217,7 +216,7 @@ theorem foldl_suppress {α : Type} (f : Idx Sel → α → Idx Sel) (hf : ∀ st
 theorem updateEndpoint_suppress (id : String) (labels : Labels) (nets : List Cidr) (ports : List Port)
     (parents : List String) (st : Idx Sel) :
     (updateEndpoint matchSel id labels nets ports parents st).suppress = st.suppress := by
-  unfold updateEndpoint
+  unfold updateEndpoint updateEndpointCore
   cases alGet id st.eps with
   | none => exact (scanEp_frame matchSel _ _ st).suppress
   | some old =>
